@@ -132,6 +132,7 @@ def check(rep, an, tier):
                               construct="shape of the samples", entry=entry, config=cfg, msg=f"computed {v.shape}")
             R.rule_purity(rep, res, entry)
             R.rule_no_global_state(rep, res, entry)
+            R.rule_dtype_casts(rep, res, entry)
     # dispatch of bad values
     P = arr("P", S("M", "DIM"), U_REL)
     for label, kw in (("engine='bogus' → NameError", dict(engine=strv("engine", "bogus"), seed=seed_val("int"))),
